@@ -15,6 +15,7 @@ EXPLANATION = (
     "(SAME-COMPILE) `-o -` and `-o FILE` call the same compile_with_reader_to_writer(args, reader, W) and differ only in W; "
     "(REQUIRE) exactly one `require \"<M without .lua>\"` is written, only when --require is given, after the preamble and "
     "before the first instruction, and the option is passed unchanged from the command line to the emitter."
+    ' (ATOMIC output-truncated) FILE is opened with truncation (File::create, or an OpenOptions chain with truncate(true)).'
 )
 UNDECIDED = "--no-std equivalence (variable numbering changes) and run mode (needs the lua interpreter)."
 
@@ -105,6 +106,27 @@ def _output_match(F):
     return fn, None
 
 
+def _file_opens(root):
+    """[(node, truncates, description)] for every place under root that opens a file for writing: File::create(p)
+    (truncates) or an OpenOptions builder chain ending in .open(p) (truncates iff .truncate(true) and no .append(true))"""
+    out = []
+    for c in nodes(root):
+        cal = callee(c) or ""
+        if c.get("k") == "Call" and cal == "std::fs::File::create":
+            out.append((c, True, "File::create"))
+        elif c.get("k") == "MethodCall" and cal == "std::fs::OpenOptions::open":
+            flags = {}
+            r = peel(c["recv"])
+            while isinstance(r, dict) and r.get("k") == "MethodCall":
+                a = peel(r["args"][0]) if r.get("args") else {}
+                if a.get("k") == "Lit" and a.get("lk") == "bool":
+                    flags.setdefault(r["m"], a["v"])
+                r = peel(r["recv"])
+            trunc = flags.get("truncate") is True and not flags.get("append")
+            out.append((c, trunc, "OpenOptions{%s}.open" % ", ".join("%s=%s" % kv for kv in sorted(flags.items()))))
+    return out
+
+
 def atomic(F, rep):
     fn, m = _output_match(F)
     rep.analysed(fn)
@@ -113,12 +135,15 @@ def atomic(F, rep):
         return
     file_arm = None
     for arm in m["arms"]:
-        creates = [c for c in nodes(arm["body"], "Call") if callee(c) == "std::fs::File::create"]
-        if creates:
+        if _file_opens(arm["body"]):
             file_arm = arm
     if file_arm is None:
         rep.anchor_missing("arm of run_file_with_reader that creates the output file")
         return
+    opened = _file_opens(file_arm["body"])
+    rep.ob("ATOMIC", "output-truncated", len(opened) == 1 and opened[0][1],
+           "FILE is opened so that its previous contents are discarded (%s): a shorter program written over a longer one "
+           "otherwise keeps the old tail" % "; ".join(o[2] for o in opened), line_of(opened[0][0]))
     blk = peel(file_arm["body"])
     stmts = [s.get("e") or s.get("init") for s in blk["stmts"]] + ([blk["e"]] if blk.get("e") is not None else [])
     i_compile = i_create = None
@@ -130,7 +155,7 @@ def atomic(F, rep):
             if callee(n) == LIB + "compile_with_reader_to_writer" and i_compile is None:
                 i_compile = i
                 compile_try = any(p.get("k") == "Try" for p in parents) or peel(s).get("k") == "Try"
-            if callee(n) == "std::fs::File::create" and i_create is None:
+            if any(n is o[0] for o in opened) and i_create is None:
                 i_create = i
     rep.ob("ATOMIC", "compile-before-create", i_compile is not None and i_create is not None and i_compile < i_create and compile_try,
            "with -o FILE the program is compiled first and `?` leaves on failure; File::create comes afterwards (statements %s < %s)" % (i_compile, i_create),
